@@ -100,7 +100,9 @@ Result(table, inputs, sc) ==
   \* among them is not settled by the property (this implementation nulls it)
   ELSE IF \E i \in 1..Len(hits), j \in 1..Len(table.outs) :
             table.outs[j].prio # <<>> /\ PrioPos(table, j, Eval(table.rules[hits[i]].outs[j], sc)) = 0 THEN Unspec
-  ELSE IF hits = <<>> THEN (IF hp \in {"C+", "C<", "C>", "C#"} THEN Unspec ELSE Default(table))
+  \* "when no rule matches the result is the default output entry if one is defined and null otherwise": for every
+  \* hit policy, the aggregating ones included (a count of no hits is not 0, a sum of no hits is not 0)
+  ELSE IF hits = <<>> THEN Default(table)
   ELSE IF hp = "U" THEN (IF Len(hits) = 1 THEN outs[1] ELSE Null)
   ELSE IF hp = "A" THEN
        (LET eqs == [i \in 1..Len(hits) |-> Eq3(outs[1], outs[i])] IN
